@@ -2,6 +2,7 @@ package pauditd
 
 import (
 	"fmt"
+	"os"
 	"testing"
 	"time"
 
@@ -75,8 +76,60 @@ func runC04parser(t *testing.T, run *mc.Run) int {
 			}
 		}
 	}
+	// an event that fails once: the login of pid 4242 is known; its session's records, the LOGIN record of a cron
+	// session that happens to get the same pid afterwards and that session's activity all leave the reassembler in
+	// one go (an unfinished group in front of them kept them there); the k-th of them is stamped in year 33658, so
+	// the JSON writer refuses exactly that event and goes on working for the others. Whatever the processor does
+	// about the failure (it stops), nothing of the cron session is ever emitted.
+	for k := 1; k <= 3; k++ {
+		n++
+		var msg string
+		bubble(t, func() {
+			r := startRead(0)
+			defer r.stop()
+			r.offerLogin(mkLogin(bindPID, "1"))
+			open := auditgen.Syscall(1700000200, 7000, "4294967295", "900", "yes", []string{"x"}, 1, false)
+			for _, rec := range open.Recs[:2] { // an unfinished group of an unrelated process
+				r.offerLine(rec.Line + "\n")
+			}
+			sec := func(i int, s int64) int64 {
+				if i == k {
+					return 999999999999
+				}
+				return s
+			}
+			for _, l := range []string{
+				auditgen.Simple("LOGIN", sec(1, 1700000201), 7001, "7", "4242", "1").Recs[0].Line,
+				auditgen.Simple("USER_START", sec(2, 1700000201), 7002, "7", "4242", "success").Recs[0].Line,
+				auditgen.Simple("CRED_DISP", sec(3, 1700000202), 7003, "7", "4242", "success").Recs[0].Line,
+				auditgen.Simple("LOGIN", 1700000203, 7004, "8", "4242", "1").Recs[0].Line,
+				auditgen.Simple("USER_START", 1700000204, 7005, "8", "4242", "success").Recs[0].Line,
+				auditgen.Simple("USER_ACCT", 1700000205, 7006, "8", "4242", "success").Recs[0].Line,
+			} {
+				if !r.offerLine(l + "\n") {
+					break
+				}
+			}
+			vsleep(10 * time.Second)
+			evs, _ := r.w.events()
+			if os.Getenv("VERIF_DEBUG_C04") != "" {
+				fmt.Printf("k=%d returned=%v ret=%v writes=%d\n", k, r.returned, r.ret, r.w.n)
+				for _, e := range evs {
+					fmt.Printf("   %s ses=%s %v\n", e.Type, e.Metadata.AuditID, e.Subjects)
+				}
+			}
+			for _, e := range evs {
+				if e.Metadata.AuditID == "8" {
+					msg = fmt.Sprintf("an event of session 8 (a later session of pid 4242 for which no SSH login arrived) was emitted with subjects %v after event %d of the batch could not be encoded", e.Subjects, k)
+				}
+			}
+		})
+		if msg != "" {
+			run.Violation("C04:parser:one-event-fails", map[string]any{"failing_event": k}, msg)
+		}
+	}
 	cov := mc.Coverage{Level: "exploration", Evaluations: n, Distinct: n, Exhaustive: true, Samples: samples,
-		Rule:  "parser level: 4 spellings of a LOGIN record for the kernel's unset / absent session (current format with ses=4294967295 and ses=unset, the pre-3.14 format with 'old ses= new ses=4294967295', the pre-3.14 format without a session) + a follow-up record, as log text through the real Auditd.Read, with an SSH login of the same pid arriving before or after; nothing may be emitted. distinct_nontrivial = cells",
+		Rule:  "parser level: 4 spellings of a LOGIN record for the kernel's unset / absent session (current format with ses=4294967295 and ses=unset, the pre-3.14 format with 'old ses= new ses=4294967295', the pre-3.14 format without a session) + a follow-up record, as log text through the real Auditd.Read, with an SSH login of the same pid arriving before or after; nothing may be emitted; plus 3 cells in which a login's session and a later login-less session of the same pid leave the reassembler in one batch while the k-th event of the batch cannot be encoded (stamped in year 33658; k = 1..3): nothing of the login-less session is emitted. distinct_nontrivial = cells",
 		Extra: map[string]any{"spellings": len(shapes)}}
 	return run.Finish(cov)
 }
